@@ -470,7 +470,7 @@ pub fn wrapped_scalars() -> Vec<Value> {
 /// Widths beyond every small-size regime: 15 / 16-bit counts and typical allocation caps.
 pub fn width_classes(thorough: bool) -> Vec<usize> {
     if thorough {
-        vec![4096, 32767, 32768, 32769, 65535, 65536, 65537, 100_000, 1_048_577]
+        vec![4096, 32767, 32768, 32769, 65535, 65536, 65537, 100_000, 262_145]
     } else {
         vec![32769, 65537, 100_000]
     }
@@ -485,4 +485,43 @@ pub fn type_grid() -> Vec<Value> {
         "null", "true", "false", "0", "1", "-1.5", "-0.0", "5e-324", "9223372036854775808", "9007199254740993",
         r#""""#, r#""a""#, r#""1""#, r#"" ""#, "[]", "[1]", "[[1]]", r#"["a",null]"#, "{}", r#"{"a":1,"b":null}"#,
     ])
+}
+
+
+/// Whole code-point blocks around every white-space and format character (C0 and C1 controls, General
+/// Punctuation U+2000..U+206F in full, Mongolian / Arabic format characters, BOM and the interlinear
+/// annotation characters, a tag character): a trimmed-character table written with ranges, or borrowed
+/// from another language's notion of white space, differs from ECMAScript's inside these blocks.
+pub fn ws_block_chars() -> Vec<char> {
+    let mut v: Vec<char> = Vec::new();
+    let mut range = |a: u32, b: u32| {
+        for c in a..=b {
+            if let Some(ch) = char::from_u32(c) {
+                v.push(ch);
+            }
+        }
+    };
+    range(0x00, 0x20);
+    range(0x7f, 0xa0);
+    range(0xad, 0xad);
+    range(0x600, 0x605);
+    range(0x61c, 0x61c);
+    range(0x1680, 0x1680);
+    range(0x180b, 0x180f);
+    range(0x2000, 0x206f);
+    range(0x3000, 0x3000);
+    range(0xfeff, 0xfeff);
+    range(0xfff9, 0xfffb);
+    range(0xe0001, 0xe0001);
+    v
+}
+
+/// "1" wrapped in each block character, and each block character alone.
+pub fn ws_block_strings() -> Vec<Value> {
+    let mut out = Vec::new();
+    for c in ws_block_chars() {
+        out.push(Value::String(format!("{}1{}", c, c)));
+        out.push(Value::String(c.to_string()));
+    }
+    out
 }
